@@ -442,6 +442,35 @@ fn oracle_c19(
                         None => false,
                     }
                 }
+                "deletew" | "updatew" => {
+                    // the restrictions of successive `with()` calls, AND-ed left to right
+                    let tn = str_of_hex(t[2]).unwrap();
+                    let (ups, mut pos): (Vec<(String, V)>, usize) = if t[1] == "updatew" {
+                        let k: usize = t[3].parse().unwrap();
+                        ((0..k).map(|j| (str_of_hex(t[4 + 2 * j]).unwrap(), V::parse(t[5 + 2 * j]).unwrap())).collect(), 4 + 2 * k)
+                    } else {
+                        (vec![], 3)
+                    };
+                    let n: usize = t[pos].parse().unwrap();
+                    pos += 1;
+                    let mut cond: Option<E> = None;
+                    for _ in 0..n {
+                        let (e, used) = E::parse(&t[pos..]).unwrap();
+                        pos += used;
+                        cond = Some(match cond { Some(c) => E::Bin("and", Box::new(c), Box::new(e)), None => e });
+                    }
+                    if t[1] == "updatew" {
+                        match read_update(&text) {
+                            Some((a, b, c)) => a == tn && b == ups && same_cond(&c, &cond),
+                            None => false,
+                        }
+                    } else {
+                        match read_delete(&text) {
+                            Some((a, c)) => a == tn && same_cond(&c, &cond),
+                            None => false,
+                        }
+                    }
+                }
                 _ => {
                     let tn = str_of_hex(t[2]).unwrap();
                     let cond = parse_cond(&t[3..]);
